@@ -461,7 +461,7 @@ class C11H(Suite):
             via = rng.choice(["triples", "triples", "so", "sparql", "sparql_bind"]) if kind == "graph" else "triples"
             while True:
                 ast = gen_path(rng, d, preds, singles=False)
-                # keep the known findings rare here: they would only hide a stale answer of the same step
+                # keep the open findings (F4c, F4e) out of the histories: they would only hide a stale answer of the same step
                 if not contains_inv_member(ast) and not (ast[0] == "neg" and not ast[1] and via.startswith("sparql")):
                     break
             return [ast, end(), end(), via]
